@@ -69,7 +69,7 @@ def copy_info(program: Program, c: ClassInfo, _memo: dict) -> CopyInfo:
 def _copy_of(program: Program, recv: ClassInfo, f: FuncInfo, _memo: dict) -> CopyInfo:
     info = CopyInfo()
     info.defined_in = f.cls
-    f = inlined(program, f)      # a re-copy loop kept in a private helper is read at its call site
+    f = inlined(program, f, recv, exprs=False)      # a re-copy loop kept in a helper is read at its call site (hooks in expressions are evaluated symbolically below)
     selfname = f.params[0]
     newvar = None
     for node in ast.walk(f.node):
@@ -211,6 +211,10 @@ def _generic_copy_loops(program: Program, recv: ClassInfo, f: FuncInfo, info: Co
         if kinds:
             info.dynamic_kinds |= kinds
             continue
+        names_ = _eval_names(program, recv, f, it)
+        if names_ is not None:
+            info.recopied |= names_
+            continue
         if isinstance(it, ast.Name):
             r_ = program.resolve_global(f.module, it.id)
             if r_ and r_[0] == "const" and isinstance(r_[2], (ast.Tuple, ast.List)):
@@ -226,6 +230,24 @@ def _generic_copy_loops(program: Program, recv: ClassInfo, f: FuncInfo, info: Co
                 continue
         info.unsupported = f"names iterated by the re-copy loop of {f.qualname} are not resolvable: {ast.unparse(it)[:60]}"
         return
+
+
+def _eval_names(program: Program, recv: ClassInfo, f: FuncInfo, expr: ast.expr) -> set[str] | None:
+    """the iterated names decided by the symbolic evaluator for this receiver class: a constant tuple however it is spelled
+    (module constant, class attribute extended per subclass, classmethod hook calling super(), `(*base, "x")` ...)"""
+    from ..symex import Const, Evaluator, Frame, ListV, One
+    try:
+        ev = Evaluator(program)
+        o = ev.self_obj(recv)
+        orig = getattr(f, "inlined_from", f)
+        fr = Frame(orig, recv, o, orig.module)
+        fr.env[orig.params[0]] = o
+        v = ev.consume_lazy(ev.eval(expr, fr))
+    except AnalysisError:
+        return None
+    if isinstance(v, ListV) and v.items and all(isinstance(i, One) and i.cond is None and isinstance(i.value, Const) and isinstance(i.value.value, str) for i in v.items):
+        return {i.value.value for i in v.items}
+    return None
 
 
 def _stored_names(program: Program, recv: ClassInfo, attr: str) -> set[str] | None:
@@ -445,6 +467,23 @@ def builders_of(c: ClassInfo) -> list[FuncInfo]:
     return out
 
 
+def _may_hand_self_on(g: FuncInfo) -> bool:
+    """the receiver is used as a value (returned, passed to a call, stored) or the method returns what another method of
+    the receiver returns"""
+    if not g.params or g.is_static:
+        return False
+    sn = g.params[0]
+    bases = {id(n.value) for n in ast.walk(g.node) if isinstance(n, ast.Attribute)}
+    for n in ast.walk(g.node):
+        if isinstance(n, ast.Name) and n.id == sn and isinstance(n.ctx, ast.Load) and id(n) not in bases:
+            return True
+        if isinstance(n, ast.Return) and n.value is not None:
+            for c_ in ast.walk(n.value):
+                if isinstance(c_, ast.Call) and isinstance(c_.func, ast.Attribute) and isinstance(c_.func.value, ast.Name) and c_.func.value.id == sn:
+                    return True
+    return False
+
+
 def check(program: Program, run: Run) -> None:
     run.explanation = (
         "Static ownership analysis: for every @builder method of every concrete class the interprocedural effect "
@@ -621,6 +660,8 @@ def check(program: Program, run: Run) -> None:
             g = c.resolve(n)
             if g is None or g.is_builder or n.startswith("__") or is_observer(g):
                 continue
+            if not _may_hand_self_on(g):
+                continue     # cheap syntactic pre-filter: the receiver never leaves the method (only its attributes are used)
             eng.fixpoint([(g, c)])
             gs = eng.summary(g, c)
             hands_on = SELF in gs.returns or any(SELF in orgs for (_k, cap, _l) in gs.constructed for orgs in cap.values())
